@@ -563,6 +563,14 @@ TARGETS = {
               "consts": {"self._time": ("now", "F"), "self.propagate_event_queue": ("propagate_event_queue", "LE")}}),
         ],
     },
+    "MathsF64": {
+        # the same source in binary64 semantics: where the rounding of `angle += TWOPI` matters (the open known finding of C12)
+        "file": "physics/maths.py",
+        "mode": "f64",
+        "fns": [
+            ("wrapAngle2Pi", "wrapAngle2Pi", {"angle": "F"}, 0),
+        ],
+    },
     "Maths": {
         "file": "physics/maths.py",
         "mode": "exact",
